@@ -282,6 +282,12 @@ class APE:
             return self.literal(st, n["kids"][0])
         if n["k"] == "CallExpr" and n.get("callee") == "__builtin_expect":
             return self.literal(st, n["kids"][1])
+        if n["k"] == "BinaryOperator" and n.get("op") in ("&&", "||"):
+            # value of a short-circuit operator materialised at a join (e.g. under `!`):
+            # decided by the left operand's edge if it short-circuited, else it is the right operand
+            if n["id"] in st.nodeval:
+                return bool(st.nodeval[n["id"]][1])
+            return self.literal(st, n["kids"][1])
         if n["k"] == "BinaryOperator" and n.get("op") in OPSETS:
             l, r = n["kids"]
             a, b = self.val(st, l), self.val(st, r)
@@ -538,7 +544,16 @@ class APE:
             return
         if B.cond is not None and len(succs) == 2:
             lit = self.literal(st, B.cond)
+            lop = None
+            if B.termk == "BinaryOperator" and B.term is not None and B.term.get("op") in ("&&", "||"):
+                lop = B.term
             if isinstance(lit, bool):
+                if lop is not None:
+                    st.nodeval.pop(lop["id"], None)
+                    if lop["op"] == "&&" and not lit:
+                        st.nodeval[lop["id"]] = ("c", 0)
+                    elif lop["op"] == "||" and lit:
+                        st.nodeval[lop["id"]] = ("c", 1)
                 tgt = succs[0] if lit else succs[1]
                 if tgt is None:
                     self._finish(st, "cut")
@@ -553,11 +568,17 @@ class APE:
                 new = cur & a
                 if not new or succs[i] is None:
                     continue
-                outs.append((succs[i], new))
+                outs.append((succs[i], new, i))
             first = True
-            for tgt, new in outs:
+            for tgt, new, ei in outs:
                 s2 = st if (first and len(outs) == 1) else st.copy()
                 first = False
+                if lop is not None:
+                    s2.nodeval.pop(lop["id"], None)
+                    if lop["op"] == "&&" and ei == 1:
+                        s2.nodeval[lop["id"]] = ("c", 0)
+                    elif lop["op"] == "||" and ei == 0:
+                        s2.nodeval[lop["id"]] = ("c", 1)
                 s2.cons[atom] = frozenset(new)
                 s2.det = False
                 s2.atoms.setdefault(atom, nodes)
